@@ -1384,3 +1384,110 @@ class UpdateCorrespondingStateNotInTx(FnCheck):
                 Val.i(z3.Select(st.get_arr('f:StateVersion'), c)) == self.sv.e + 1)))
         else:
             ex.oblige(st, 'a_copy_is_queued_with_the_stored_state_as_old', z3.Not(self.exists.e))
+
+
+@register
+class RmDescriptorsAndStates(FnCheck):
+    id = 'C02.rm_descriptors_and_states'
+    prop = 'C02'
+    tag = 'S'
+    opaque_ok = True
+    target = f'{MB}:MdibBase.rm_descriptors_and_states'
+    doc = ('rm_descriptors_and_states, arbitrary descriptor of the list: the descriptor is removed from the descriptions '
+           'table; for the states table and the context-states table the entry of the descriptor_handle index is looked '
+           'up with the handle of THAT descriptor, and when it exists ALL its states are removed: remove_objects gets a '
+           'private list with the same content as the index entry - never the live index list, which remove_objects '
+           'shrinks while iterating (every second state would survive as an orphan referring to a deleted descriptor) - '
+           'and the same private list is what deleted_states_by_handle publishes')
+    trusted = ('MultiKeyLookup.remove_object / remove_objects (C11): remove exactly the given objects; requires that the '
+               'argument of remove_objects is not one of the index lists',)
+    LOGGED = ('remove_object', 'get', 'remove_objects')
+    stable_fields = ('descriptions', 'states', 'context_states', 'descriptor_handle', 'Handle')
+
+    def setup(self, b):
+        st = b.st
+        self.t = {}
+        for n in ('descriptions', 'states', 'context_states'):
+            idx = b.obj(n + '.descriptor_handle')
+            self.t[n] = b.obj(n, descriptor_handle=idx)
+            self.t[n + '.idx'] = idx
+        self.o = b.obj('self', cls=(MB, 'MdibBase'), descriptions=self.t['descriptions'], states=self.t['states'],
+                       context_states=self.t['context_states'])
+        lst = b.obj('descriptor_containers')
+        st.assume(z3.Select(st.get_arr('C'), lst.e) == b.ex.ctx.builtin_class_ids['list'])
+        b.distinct(self.o, lst, *self.t.values())
+        st.ghost['calls'] = ()
+        return self.o, [lst], {}
+
+    def hooks(self, ex):
+        chk = self
+
+        class H:
+            tracked_names = chk.LOGGED + ('deleted_states_by_handle', 'deleted_descriptors_by_handle')
+
+            @staticmethod
+            def on_loop_havoc(ex_, st, node):
+                st.ghost['calls'] += (('#loop', ex_.loop_ordinal(node)),)
+
+            @staticmethod
+            def on_call(ex_, st, fv, keys, args, kwargs, node):
+                name = getattr(fv, 'name', None) or (fv.fn.name if fv.t == 'repo' else None)
+                if name not in chk.LOGGED:
+                    return None
+                recv = fv.recv if fv.t == 'method' else getattr(fv, 'self_v', None)
+                if name == 'get':
+                    # index lookup: None or the live list object of the index entry (a pre-state list, arbitrary content)
+                    live = fresh(IntS, 'live_entry')
+                    found = fresh(BoolS, 'found')
+                    st.assume(z3.And(live > 0, live < 10 ** 9,
+                                     z3.Select(st.get_arr('C'), live) == ex_.ctx.builtin_class_ids['list']))
+                    st.ghost['calls'] += ((name, st.box(recv), tuple(st.box(a) for a in args), live, found,
+                                           z3.Select(st.get_arr('L'), live)),)
+                    return [(st, vany(z3.If(found, Val.ref(live), Val.none), maybe_none=True))]
+                st.ghost['calls'] += ((name, st.box(recv) if recv is not None else None, tuple(st.box(a) for a in args),
+                                       tuple(z3.Select(st.get_arr('L'), Val.oid(st.box(a))) for a in args)),)
+                return [(st, NONE)]
+        return H
+
+    def loops(self, ex):
+        def inv(ex_, st, env):
+            if env['_phase'] != 'preserve':
+                return z3.BoolVal(True)
+            calls = st.ghost['calls']
+            heads = [i for i, c in enumerate(calls) if c == ('#loop', 0)]
+            own = tuple(c for c in calls[heads[-1] + 1:] if c[0] != '#loop') if heads else ()
+            ob = lambda n, f: ex_.oblige(st, n, f, kind='loop')   # noqa: E731
+            d = st.box(st.locals['descriptor_container'])
+            handle = z3.Select(st.get_arr('f:Handle'), Val.oid(d))
+            names = [c[0] for c in own]
+            ob('descriptor_removed_from_descriptions_first', z3.And(
+                z3.BoolVal(bool(own) and own[0][0] == 'remove_object'), Val.oid(own[0][1]) == self.t['descriptions'].e,
+                own[0][2][0] == d) if own else z3.BoolVal(False))
+            gets = [c for c in own if c[0] == 'get']
+            ob('state_entries_of_both_tables_looked_up_by_the_handle_of_the_descriptor', z3.And(
+                z3.BoolVal(len(gets) == 2), Val.oid(gets[0][1]) == self.t['states.idx'].e,
+                Val.oid(gets[1][1]) == self.t['context_states.idx'].e, gets[0][2][0] == handle, gets[1][2][0] == handle)
+                if len(gets) == 2 else z3.BoolVal(False))
+            # after each lookup: found => exactly one remove_objects on that table with a private copy of the entry
+            ok = []
+            for gi, g in enumerate(gets):
+                tbl = self.t['states' if gi == 0 else 'context_states']
+                pos = own.index(g)
+                nxt = own[pos + 1] if pos + 1 < len(own) else None
+                is_rm = nxt is not None and nxt[0] == 'remove_objects'
+                _, _, _, live, found, content = g
+                if is_rm:
+                    arg = nxt[2][0]
+                    ok.append(z3.And(found, Val.oid(nxt[1]) == tbl.e, Val.is_ref(arg), Val.oid(arg) != live,
+                                     Val.oid(arg) >= 10 ** 9, nxt[3][0] == content))
+                else:
+                    ok.append(z3.Not(found))
+            ob('every_found_entry_is_removed_through_a_private_copy_with_all_its_states', z3.And(*ok) if len(gets) == 2 else z3.BoolVal(False))
+            ob('no_other_table_operation', z3.BoolVal(all(n in ('remove_object', 'get', 'remove_objects') for n in names)
+                                                      and names.count('remove_object') == 1 and names.count('remove_objects') <= 2))
+            return z3.BoolVal(True)
+        return {0: LoopSpec(inv=inv, havoc_heap=['L', 'DK', 'DV', 'DN'])}
+
+    def post(self, ex, st0, st, outcome, b):
+        if outcome[0] == 'exc':
+            ex.oblige(st, 'raises_only_what_a_table_operation_raises', z3.BoolVal(outcome[1].cls == '*'), info={'exc': repr(outcome[1])})
